@@ -179,6 +179,21 @@ pub fn c14(out: &mut Out, rng0: &mut Rng, tier: &Tier) {
             let landed = itr.nth(jump);
             got.clear();
             got.extend(landed);
+            // the size query must stay callable and truthful after a skip, also one that overshot the end (seeded change
+            // C14-m10: an exact size_hint computed as len - cursor with an uncapped cursor)
+            let d2 = &d;
+            let consumed = pre.min(bs.len()) + jump + 1;
+            let left = bs.len().saturating_sub(consumed);
+            let hint_ok = guard(std::panic::AssertUnwindSafe(|| {
+                let mut it2 = d2.iter();
+                for _ in 0..pre {
+                    it2.next();
+                }
+                it2.nth(jump);
+                let (lo, hi) = it2.size_hint();
+                lo <= left && hi.map_or(true, |h| left <= h)
+            }));
+            out.case("s.id", l(vec![b(true)]), opt(hint_ok.map(b)));
             got.extend(itr);
             out.case("s.seq.skip_step", l(vec![dna(&bs), nu(pre.min(bs.len()) + jump), nu(1)]), dna(&got));
         }
